@@ -106,9 +106,10 @@ def run_one(mu: dict) -> dict:
                 res["status"] = "OK" if hit else ("WRONG-RULE" if fired else "SURVIVOR")
             else:
                 res["status"] = "OK" if not fired else "FALSE-ALARM"
-        except AnalysisError as e:
-            # fail closed counts as detected for fire mutants, but is reported as such
-            res["violations"] = [f"ANALYSIS-ERROR {e}"]
+        except Exception as e:  # AnalysisError or an internal error: the CLI turns both into exit 2
+            import traceback
+
+            res["violations"] = [f"ANALYSIS-ERROR {type(e).__name__}: {e}", traceback.format_exc()[-600:]]
             if mu["expect"] == "fire" and mu.get("accept_analysis_error"):
                 res["status"] = "OK"
             else:
